@@ -79,6 +79,8 @@ def _body(c: C, m: M) -> str:
             return pre + "return (double)a0.size();"
         if m.echo == "byte":
             return pre + "return (a1 >= 0 && (size_t)a1 < a0.size()) ? (double)(unsigned char)a0[a1] : -1.0;"
+        if m.echo == "mix":
+            return pre + "return (double)a0 * 2 + (double)a1;"
         if m.echo == "scaled":
             return pre + 'return vf_num("pt","' + n + '") * a0;'
         raise ValueError(m.echo)
